@@ -8,6 +8,7 @@ operators and operands in source order; every token from root.end_pos on must be
 Short-ifs: the tree comparison decides which statements a short-if owns (its line) and which are siblings.
 """
 from .. import progen, layout, ptree, reflex
+from .. import ambient
 
 LEVEL = 'exploration'
 RULE = ('programs derived from the dialect grammar of DESIGN.md Appendix A (all statement kinds, all operators, all literal forms, short-if with '
@@ -77,7 +78,7 @@ def check_program(ctx, p, src, tag):
             ctx.feature(f)
     key = 'nested-short-if' if 'nested-short-if' in p.feats else None
     try:
-        L = lua.Lua.from_lines([src], version=8)
+        L = lua.Lua.from_lines([src], version=ambient.VERSION[0])
     except Exception as e:
         ctx.violation('valid program rejected: %s' % (e,), case, key=key)
         return
@@ -108,7 +109,7 @@ def reuse_parser(ctx, rng, parser_obj, p, src):
     failing parses in between; each valid program must still produce its tree."""
     from pico8.lua import lexer, parser
     case = {'src': src, 'tag': 'reused-parser', 'feats': sorted(p.feats)}
-    lx = lexer.Lexer(version=8)
+    lx = lexer.Lexer(version=ambient.VERSION[0])
     lx.process_lines([src])
     try:
         parser_obj.process_tokens(lx.tokens)
@@ -136,7 +137,7 @@ def poison_parser(rng, parser_obj, p):
     broken = b' '.join(raw for k, raw in toks[:cut]) + rng.choice((b'\n', b' ( \n', b'\nend\n', b' ,\n'))
     # the error often lands inside a one-line short-if body when the cut falls there
     try:
-        lx = lexer.Lexer(version=8)
+        lx = lexer.Lexer(version=ambient.VERSION[0])
         lx.process_lines([broken])
         parser_obj.process_tokens(lx.tokens)
     except Exception:
@@ -179,7 +180,7 @@ def run_shard(spec, ctx):
         run_big(spec, ctx)
         return
     from pico8.lua import parser as _parser
-    shared = _parser.Parser(version=8)
+    shared = _parser.Parser(version=ambient.VERSION[0])
     for i in range(spec['count']):
         depth = rng.choice((1, 2, 2, 3, 3)) if not spec.get('deep') else rng.choice((3, 4, 5))
         opts = {'depth': depth, 'max_stmts': 4 if depth <= 3 else 2, 'exotic_numbers': True, 'exotic_strings': True,
@@ -214,7 +215,7 @@ def replay(case, ctx):
     from pico8.lua import lua, lexer
     src = case['src']
     try:
-        L = lua.Lua.from_lines([src], version=8)
+        L = lua.Lua.from_lines([src], version=ambient.VERSION[0])
     except Exception as e:
         ctx.violation('valid program rejected: %s' % (e,), case, key='nested-short-if' if 'nested-short-if' in case.get('feats', []) else None)
         return
